@@ -110,3 +110,53 @@ Example C10_edges_example :
    (S_running, S_updating); (S_contemplation, S_running); (S_loading, S_contemplation);
    (S_starting, S_loading)].
 Proof. vm_compute. reflexivity. Qed.
+
+(* ---- SOURCE TIE (session 3): the life-cycle methods of class FSM as
+   translated from pl/state.py of today (Gen/StateGen.v,
+   tools/translate/state2coq.py) are the functions of Model/Fsm.v the theorems
+   above speak about.  State abstraction: header of state2coq.py;
+   self.X_trigger() is the machine's Event.trigger ([rec] inside a callback,
+   [trigger_] from a thread); [epoch_counted] is the ghost counter of reset. *)
+From DV Require Gen.StateGen Proofs.StateGenEq.
+
+(* FSM.is_pipeline_active *)
+Theorem C10_is_pipeline_active_is_source : forall s,
+  StateGen.is_pipeline_active s = is_pipeline_active s.
+Proof. exact StateGenEq.is_pipeline_active_eq. Qed.
+Print Assumptions C10_is_pipeline_active_is_source.
+
+(* the setter of FSM.transitioning (the guard of every callback) *)
+Theorem C10_transitioning_setter_is_source : forall s v,
+  StateGen.set_transitioning s v = set_tr s v.
+Proof. exact StateGenEq.set_transitioning_eq. Qed.
+Print Assumptions C10_transitioning_setter_is_source.
+
+(* every callback named in state.dot: FSM.start / load / navel_gaze /
+   save_prior_state / archive (+ _archive_done) / reload / reset *)
+Theorem C10_callbacks_are_source : forall rec s c,
+  run_cb rec s c =
+  match c with
+  | Cb_start => StateGen.start s
+  | Cb_load => StateGen.load s
+  | Cb_navel_gaze => StateGen.navel_gaze s
+  | Cb_save_prior_state => StateGen.save_prior_state s
+  | Cb_archive => StateGen.archive rec s
+  | Cb_reload => StateGen.reload s
+  | Cb_reset => StateGenEq.epoch_counted (StateGen.reset s)
+  | Cb_fire t => rec s t
+  end.
+Proof. exact StateGenEq.callbacks_eq. Qed.
+Print Assumptions C10_callbacks_are_source.
+
+(* the completion of each background step: load.done, _navel_gaze,
+   reload.done, _archive_done *)
+Theorem C10_completions_are_source : forall s b,
+  complete s b =
+  match b with
+  | BgPipeline => StateGen.load_done trigger_ s
+  | BgNavel => StateGen.navel_gaze_body trigger_ s
+  | BgReload => StateGen.reload_done trigger_ s
+  | BgArchive => StateGen.archive_done trigger_ s
+  end.
+Proof. exact StateGenEq.complete_eq. Qed.
+Print Assumptions C10_completions_are_source.
